@@ -4,7 +4,7 @@ import Amshan.Lemmas.HdlcClean
   exact payload and header fields, however the stream is split into read() calls.
 -/
 namespace Amshan.C02
-open Amshan.Gen Amshan.Hdlc Amshan.HdlcSpec
+open Amshan.Gen Amshan.Hdlc Amshan.HdlcSpec Amshan.HdlcClean
 
 /-- what the delivered frame object shows through the accessors -/
 theorem expected_observation (d : FrameDesc) (h : d.WF) :
@@ -16,7 +16,79 @@ theorem expected_observation (d : FrameDesc) (h : d.WF) :
     (expectedFrame d).frameLength = some d.totalLen ∧
     (expectedFrame d).formatType = some d.fmt ∧
     (expectedFrame d).segmentation = some d.seg := by
-  sorry
+  have hlen := encode_length d
+  have hff : (mk d.encode).frameFormat = some d.format :=
+    frameFormat_prefix d d.encode [] (by simp) (by rw [hlen]; have := totalLen_ge d; omega)
+  have hdata : (expectedFrame d).data = d.encode := rfl
+  have hctl : (expectedFrame d).ctlPos = some (d.headLen - 1) := rfl
+  have hflen : (expectedFrame d).len = d.totalLen := by unfold Frame.len; rw [hdata, hlen]
+  obtain ⟨t, ht⟩ := encode_split d
+  have hshape : d.encode = [d.format / 256, d.format % 256] ++ d.dst ++ d.src ++ ([d.ctl] ++ (fcsLE d.head ++ t)) := by
+    rw [ht]; unfold FrameDesc.head; simp
+  refine ⟨?_, rfl, ?_, ?_, ?_, ?_, ?_, ?_, ?_⟩
+  · -- is_valid
+    unfold Frame.isValid
+    rw [Bool.and_eq_true]
+    constructor
+    · simp [Frame.isGoodFfc, expectedFrame, Fcs.isGood]
+    · rw [expectedFrame_eq d h, isExpectedLength_prefix d h d.encode [] (by simp)
+        (by rw [hlen]; have := totalLen_ge d; omega)]
+      simp [hlen]
+  · -- payload
+    unfold Frame.payload Frame.infoPos
+    rw [hctl, hflen]
+    simp only [Option.map_some]
+    have hhl := headLen_ge d
+    cases hi : d.info.isEmpty with
+    | true =>
+      have : ¬ (d.totalLen > d.headLen - 1 + 3) := by
+        unfold FrameDesc.totalLen; rw [hi]; simp; omega
+      rw [if_neg this]; rfl
+    | false =>
+      have : d.totalLen > d.headLen - 1 + 3 := by
+        unfold FrameDesc.totalLen; rw [hi]; simp; omega
+      rw [if_pos this]
+      simp only [Bool.false_eq_true, if_false, Option.some.injEq]
+      have he : d.encode = (d.head ++ fcsLE d.head) ++ d.info ++ fcsLE (d.head ++ fcsLE d.head ++ d.info) := by
+        unfold FrameDesc.encode; rw [hi]; simp
+      unfold sliceNegEnd
+      rw [hdata, he]
+      have h1 : ((d.head ++ fcsLE d.head) ++ d.info ++ fcsLE (d.head ++ fcsLE d.head ++ d.info)).length - 2
+          = ((d.head ++ fcsLE d.head) ++ d.info).length := by
+        simp [fcsLE_length]; omega
+      rw [h1, List.take_left']
+      have h2 : d.headLen - 1 + 3 = (d.head ++ fcsLE d.head).length := by
+        simp [head_length, fcsLE_length]; omega
+      rw [h2, List.drop_left']
+      · rfl
+      · rfl
+  · -- destination
+    unfold Frame.dest
+    rw [hdata, hshape, List.append_assoc]
+    exact destAddr_of_shape _ _ d.dst _ h.2.1
+  · -- source
+    unfold Frame.src
+    rw [hdata, hshape]
+    exact srcAddr_of_shape _ _ d.dst d.src _ h.2.1 h.2.2.1
+  · -- control
+    unfold Frame.control
+    rw [hctl, hflen]
+    simp only
+    have hhl := headLen_ge d
+    have := totalLen_ge d
+    rw [if_pos (by omega), hdata, hshape]
+    have hl : d.headLen - 1 = ([d.format / 256, d.format % 256] ++ d.dst ++ d.src).length := by
+      simp [FrameDesc.headLen]; omega
+    rw [hl, List.getElem?_append_right (Nat.le_refl _), Nat.sub_self]
+    rfl
+  · rw [expectedFrame_eq d h]
+    exact frameLength_prefix d h d.encode [] (by simp) (by rw [hlen]; have := totalLen_ge d; omega)
+  · rw [expectedFrame_eq d h]
+    unfold Frame.formatType
+    rw [hff, Option.map_some, format_type d h]
+  · rw [expectedFrame_eq d h]
+    unfold Frame.segmentation
+    rw [hff, Option.map_some, format_seg d h]
 
 /-- **C02.** -/
 theorem clean_stream_delivered (cfg : Cfg) (noise : List Nat) (fs : List (FrameDesc × Nat))
@@ -26,6 +98,7 @@ theorem clean_stream_delivered (cfg : Cfg) (noise : List Nat) (fs : List (FrameD
     (hcl : 1 ≤ closing)
     (hch : chunks.flatten = wire cfg.stuffing noise fs closing) :
     (readAll cfg Reader.init chunks).2.flatten = fs.map (fun p => expectedFrame p.1) := by
-  sorry
+  rw [readAll_init, hch]
+  exact clean_run cfg noise fs closing hnoise hfs hcl
 
 end Amshan.C02
